@@ -323,7 +323,8 @@ class InstructionNodeCreator:
 
         :param chars: tuple containing text (Unicode string)
         """
-        if not chars:
+        if not any(chars):
+            # nothing displayable (e.g. the filler word 8080): no node needed
             return
 
         current_position = self._position_tracer.get_current_position()
@@ -485,6 +486,10 @@ class InstructionNodeCreator:
             except KeyError:
                 # if not PAC or OFFSET we're not changing position
                 return
+        if self.is_empty():
+            # nothing was composed yet: the position of an earlier caption
+            # must not be mistaken for the previous row of this one
+            self._position_tracer.reset()
         offset_after_break = is_offset and self.has_break_before(self._collection)
         if not offset_after_break:
             # Tab offsets after line breaks will be ignored to avoid repositioning
